@@ -309,32 +309,69 @@ def _side(d):
     return None
 
 
-def _key_eq(a, b):
-    """equality of two (Sym)strings decided by ONE fork on the conjunction of the per-cell equalities (SymStr.__eq__ forks
-    cell by cell; a dict lookup only needs hit / miss)"""
-    ac = SymStr.lift(a).cells
-    bc = SymStr.lift(b).cells
-    if builtins.len(ac) != builtins.len(bc):
-        return False
-    parts = []
-    for p, q in zip(ac, bc):
-        ps, qs = isinstance(p, str), isinstance(q, str)
-        if ps and qs:
-            if p != q:
-                return False
-            continue
-        if not ps and not qs and p.vid == q.vid and p.fmap == q.fmap:
-            continue
-        if not (({p} if ps else p.chars()) & ({q} if qs else q.chars())):
+def _key_terms(a, b, parts):
+    """collect z3 equalities that make the dict keys a and b equal; False if they cannot be equal, True otherwise"""
+    if isinstance(a, tuple) or isinstance(b, tuple):
+        if not (isinstance(a, tuple) and isinstance(b, tuple)) or builtins.len(a) != builtins.len(b):
             return False
-        parts.append((z3.IntVal(ord(p)) if ps else p.term()) == (z3.IntVal(ord(q)) if qs else q.term()))
+        for x, y in zip(a, b):
+            if not _key_terms(x, y, parts):
+                return False
+        return True
+    if isinstance(a, (str, SymStr)) or isinstance(b, (str, SymStr)):
+        if not (isinstance(a, (str, SymStr)) and isinstance(b, (str, SymStr))):
+            return False
+        ac = SymStr.lift(a).cells
+        bc = SymStr.lift(b).cells
+        if builtins.len(ac) != builtins.len(bc):
+            return False
+        for p, q in zip(ac, bc):
+            ps, qs = isinstance(p, str), isinstance(q, str)
+            if ps and qs:
+                if p != q:
+                    return False
+                continue
+            if not ps and not qs and p.vid == q.vid and p.fmap == q.fmap:
+                continue
+            if not (({p} if ps else p.chars()) & ({q} if qs else q.chars())):
+                return False
+            parts.append((z3.IntVal(ord(p)) if ps else p.term()) == (z3.IntVal(ord(q)) if qs else q.term()))
+        return True
+    if isinstance(a, (SymInt, SymFloat, SymBool)) or isinstance(b, (SymInt, SymFloat, SymBool)):
+        if isinstance(a, (str, SymStr, tuple)) or isinstance(b, (str, SymStr, tuple)) or a is None or b is None:
+            return False
+        r = (a == b)                      # proxies build the comparison term; python's 1 == 1.0 key semantics come with it
+        if isinstance(r, SymBool):
+            parts.append(r.term)
+            return True
+        return builtins.bool(r)
+    try:
+        return builtins.bool(a == b)
+    except Exception:
+        return False
+
+
+def _key_sym(k):
+    if isinstance(k, tuple):
+        return any(_key_sym(x) for x in k)
+    if isinstance(k, SymStr):
+        return not k.is_concrete()
+    return isinstance(k, (SymInt, SymFloat, SymBool))
+
+
+def _key_eq(a, b):
+    """equality of two dict keys ((Sym)strings, symbolic numbers, tuples of them) decided by ONE fork on the conjunction of the
+    component equalities (the proxies' own == forks component by component; a dict lookup only needs hit / miss)"""
+    parts = []
+    if not _key_terms(a, b, parts):
+        return False
     if not parts:
         return True
     return E.cur().branch(z3.And(parts) if builtins.len(parts) > 1 else parts[0])
 
 
 def sx_setitem(v, d, k):
-    if E.active() and type(d) is dict and isinstance(k, SymStr) and not k.is_concrete():
+    if E.active() and type(d) is dict and _key_sym(k):
         eng = E.cur()
         side = eng.symstore.setdefault(id(d), (d, []))[1]
         for j, (k2, _) in enumerate(side):
@@ -342,12 +379,12 @@ def sx_setitem(v, d, k):
                 side[j] = (k2, v)
                 return
         for kc in list(d):
-            if isinstance(kc, str) and _key_eq(k, kc):
+            if _key_eq(k, kc):
                 d[kc] = v
                 return
         side.insert(0, (k, v))
         return
-    if E.active() and isinstance(d, dict) and isinstance(k, str) and not isinstance(k, SymStr):
+    if E.active() and isinstance(d, dict):
         side = _side(d)
         if side:
             for j, (k2, _) in enumerate(side):
@@ -361,7 +398,7 @@ def sx_setitem(v, d, k):
 
 def sx_getitem(a, i):
     side = _side(a)
-    if side and isinstance(i, (str, SymStr)):
+    if side:
         for k2, v2 in side:
             if _key_eq(k2, i):
                 return v2
@@ -379,12 +416,17 @@ def sx_getitem(a, i):
         raise TypeError('indices must be integers or slices, not str')
     elif isinstance(i, SymFloat):
         raise TypeError('indices must be integers or slices, not float') if not isinstance(a, dict) else KeyError('float key')
+    elif isinstance(i, tuple) and isinstance(a, dict) and _key_sym(i):
+        for k in a:
+            if isinstance(k, tuple) and _key_eq(i, k):
+                return a[k]
+        raise KeyError('symbolic tuple key')
     return a[i]
 
 
 def sx_contains(c, x):
     side = _side(c)
-    if side and isinstance(x, (str, SymStr)):
+    if side:
         for k2, _ in side:
             if _key_eq(k2, x):
                 return True
@@ -392,6 +434,11 @@ def sx_contains(c, x):
         return x in SymStr.lift(c)          # SymStr.__contains__ on the lifted container
     if isinstance(c, str) and isinstance(x, Opaque):
         x._no()
+    if isinstance(x, tuple) and isinstance(c, (dict, set, frozenset)) and _key_sym(x):
+        for k in c:
+            if isinstance(k, tuple) and _key_eq(x, k):
+                return True
+        return False
     if is_sym(x) and isinstance(c, (dict, set, frozenset)):
         for k in c:
             if isinstance(x, SymStr) and not isinstance(k, (str, SymStr)):
@@ -494,7 +541,7 @@ def sx_method(obj, name, *args, **kw):
             raise E.Unsupported('str.format with symbolic argument')
         return getattr(SymStr.lift(obj), name)(*args, **kw)
     if isinstance(obj, dict) and _side(obj):
-        if name == 'get' and args and isinstance(args[0], (str, SymStr)):
+        if name == 'get' and args:
             try:
                 return sx_getitem(obj, args[0])
             except KeyError:
